@@ -49,3 +49,59 @@ Example c04_confluent_instance :
     | _ => false
     end) (all_lists 3 [0; 1; 2]) = true.
 Proof. vm_compute. reflexivity. Qed.
+
+(* ---- the worker-pool protocol of the multi-threaded executor (Model/Pool.v) ----
+   For the barrier program GENERATED from the current executor/mt_executor.rs, for every pool size,
+   every interleaving of the workers and the main thread at the granularity of one shared access and
+   everything the tasks may do (wake tasks, send, receive): when Executor::run finds the pool idle and
+   reads the message count, no task is left in the injector, in a local queue, in a fast slot or in a
+   worker's hands, and no worker is running a task. *)
+Require Import NX.Model.Pool NX.gen.PoolProg NX.Proofs.PoolProofs NX.Proofs.PoolGen.
+
+Theorem c04_pool_source_is_proved_program : barrier_gen = barrier_fixed.
+Proof. exact gen_barrier_is_proved. Qed.
+Print Assumptions c04_pool_source_is_proved_program.
+
+Theorem c04_pool_source_call_order_is_modelled :
+  skel_worker_gen = skel_worker_modelled /\ skel_sched_gen = skel_sched_modelled /\
+  skel_run_gen = skel_run_modelled /\ skel_act_relaxed_gen = skel_act_relaxed_modelled /\
+  skel_act_gen = skel_act_modelled /\ skel_try_inactive_gen = skel_try_inactive_modelled /\
+  skel_set_inactive_gen = skel_set_inactive_modelled /\ skel_is_idle_gen = skel_is_idle_modelled.
+Proof. exact gen_skeleton_is_modelled. Qed.
+Print Assumptions c04_pool_source_call_order_is_modelled.
+
+Theorem c04_pool_run_returns_only_at_quiescence :
+  forall n ls, 1 <= n ->
+    let s := p_run barrier_gen (p_init n) ls in
+    pmain s = MRead -> Pool.quiescent s.
+Proof. intros n ls Hn s H. exact (proj2 (pool_gen_idle_read_exact n ls Hn H)). Qed.
+Print Assumptions c04_pool_run_returns_only_at_quiescence.
+
+(* during a run, an idle pool (no bit set in active_workers) means that nothing is left to do *)
+Theorem c04_pool_idle_means_quiescent :
+  forall n ls, 1 <= n ->
+    let s := p_run barrier_gen (p_init n) ls in
+    (forall v, wact (Pool.W s v) = false) -> pmain s <> MIdle -> (forall a, pmain s <> MAct a) ->
+    Pool.quiescent s.
+Proof. intros n ls Hn s H1 H2 H3. exact (proj2 (pool_gen_idle_means_quiescent n ls Hn H1 H2 H3)). Qed.
+Print Assumptions c04_pool_idle_means_quiescent.
+
+(* a worker whose bit is clear holds no task and has folded its message count *)
+Theorem c04_pool_work_only_on_active_workers :
+  forall n ls j, 1 <= n ->
+    let s := p_run barrier_gen (p_init n) ls in
+    wact (Pool.W s j) = false -> no_work (Pool.W s j) /\ wcnt (Pool.W s j) = 0%Z.
+Proof. exact pool_gen_work_only_on_active. Qed.
+Print Assumptions c04_pool_work_only_on_active_workers.
+
+(* the assertion of try_set_worker_inactive (the caller's bit is set) never fails *)
+Theorem c04_pool_no_assert_failure :
+  forall n ls, 1 <= n -> ppanic (p_run barrier_gen (p_init n) ls) = 0.
+Proof. exact pool_gen_no_assert_failure. Qed.
+Print Assumptions c04_pool_no_assert_failure.
+
+(* non-vacuity: two workers, a task that wakes two tasks, one of which is stolen; the run ends *)
+Example c04_pool_nonvacuous :
+  let s := p_run barrier_gen (p_init 2) sched_fixed in
+  pmain s = MRead /\ pmsg s = 0%Z /\ length (pws s) = 2.
+Proof. vm_compute. auto. Qed.
